@@ -24,7 +24,7 @@ Choice points and their answers (answer 0 = default):
 All executions with <= 2 non-default answers are enumerated by vf.engines.enumx.explore_deviations (stateless DFS: replay
 forced prefix, then defaults), per configuration = (module layout, (pollinterval, slowinterval) per polled module, clock
 phase, base profile); the thorough tier has more and larger configurations (3 and 4 modules, all interval ratios) and
-<= 3 deviations on the small ones (the 3rd within WINDOW = 4 choice points after the 2nd).  Layouts: a module with its own
+<= 3 deviations on the small ones (the 3rd within WINDOW = 3 choice points after the 2nd).  Layouts: a module with its own
 thread; 2-4 modules served by the thread of a shared io module (plain, or polled itself with pollinterval 0 / 5);
 parameters polled through read_*, ReadHandler (per key), CommonReadHandler (group), @nopoll (plain and handler), a
 configured writable parameter (writeInitParams).  The horizon of an execution is 3 x the largest interval of the
@@ -641,7 +641,9 @@ def configs(tier):
         n = len(LAYOUTS[layout][1])
         if len(ivals) == 1:
             ivals = ivals * n
-        res.append({'layout': layout, 'ivals': [list(x) for x in ivals], 'phase': phase, 'base': base, 'bound': 2})
+        cfg = {'layout': layout, 'ivals': [list(x) for x in ivals], 'phase': phase, 'base': base, 'bound': 2}
+        if cfg not in res:
+            res.append(cfg)
 
     matched = [(0.1, 0.1), (1, 2), (5, 15), (5, 2)]
     for pair in matched:
@@ -679,8 +681,9 @@ def configs(tier):
             deep.append(('S', [pair]))
         deep += [('io+S+T', [(1, 2)]), ('IO+S', [(1, 2)])]
         for layout, ivals in deep:
-            add(layout, ivals)
-            new = res.pop()
+            n = len(LAYOUTS[layout][1])
+            new = {'layout': layout, 'ivals': [list(x) for x in (ivals * n if len(ivals) == 1 else ivals)], 'phase': 0.37,
+                   'base': 'idle', 'bound': 2}
             res = [c for c in res if c != new]       # the deeper exploration includes the shallower one
             res.append(dict(new, bound=3))
     return res
@@ -689,7 +692,7 @@ def configs(tier):
 def bounds(tier):
     """cap = horizon in choice points; window = how far behind the 2nd deviation the 3rd may lie (configurations with
     bound 3, thorough only)"""
-    return dict(cap=44, window=4, nshards=12) if tier == 'quick' else dict(cap=64, window=4, nshards=24)
+    return dict(cap=44, window=3, nshards=12) if tier == 'quick' else dict(cap=64, window=3, nshards=24)
 
 
 def explore(cfg, shard, b, part, only_forced=None):
